@@ -223,7 +223,51 @@ def random_file(seed, d):
 def replay_random(case):
     v = check_parse(case["text"], case["fmt"], case["want"],
                     "seeded %s file #%d (%d line(s) before the first element, %s numbers)" % (case["fmt"], case["id"], case["npre"], case["style"]))
+    if v is None and case["id"] % 4 == 0:
+        v = reread(case)
     return (case["id"], v)
+
+
+def reread(case):
+    """The parsers read the FILE: after the caller has edited the dictionary it got, and after the file at the same path has
+    been replaced by another basis set, the next read returns what the file holds now."""
+    from .. import gb
+    other = random_file(case["id"] * 7919 + 13, case["id"] + 1)
+    tries = 0
+    while other["fmt"] != case["fmt"] and tries < 20:
+        tries += 1
+        other = random_file(case["id"] * 7919 + 13 + tries, case["id"] + 1)
+    if other["fmt"] != case["fmt"]:
+        return None
+    parsers = gb.mod("gbasis.parsers")
+    parse = parsers.parse_nwchem if case["fmt"] == "nwchem" else parsers.parse_gbs
+    os.makedirs(SCRATCH, exist_ok=True)
+    fd, path = tempfile.mkstemp(dir=SCRATCH, suffix="." + case["fmt"])
+    os.close(fd)
+    try:
+        with open(path, "w") as fh:
+            fh.write(case["text"])
+        first = parse(path)
+        for k in list(first):                       # the caller edits what it was given
+            first[k] = first[k][:-1]
+        first.pop(next(iter(first)), None)
+        for label, text, want in (("after the caller edited the dictionary returned by the previous read", case["text"], case["want"]),
+                                  ("after the file was replaced by another basis set", other["text"], other["want"]),
+                                  ("after the first basis set was written back", case["text"], case["want"])):
+            with open(path, "w") as fh:
+                fh.write(text)
+            order = []
+            for w in want:
+                if w[0] not in order:
+                    order.append(w[0])
+            got = flatten(parse(path), order)
+            ok = len(got) == len(want) and all(g[0] == w[0] and g[1] == w[1] and np.array_equal(g[2], np.array(w[2])) and np.array_equal(g[3], np.array(w[3]))
+                                               for g, w in zip(got, want))
+            if not ok:
+                return "seeded %s file #%d read again from the same path %s: the result is not what the file holds" % (case["fmt"], case["id"], label)
+    finally:
+        os.unlink(path)
+    return None
 
 
 # ------------------------------------------------------------------------------------------ make_contractions / from_pyscf
